@@ -43,6 +43,72 @@ class Variant:
         return ov
 
 
+def apply_unified_diff(diff_text, read):
+    """{relpath: new text} for a git-style unified diff, or None when a hunk does not match; ``read(relpath)`` gives the
+    current text (pure python, nothing touches the disk)"""
+    import re
+    files = {}
+    cur = None
+    hunks = []
+    for line in diff_text.splitlines():
+        if line.startswith('+++ '):
+            path = line[4:].strip()
+            cur = path[2:] if path.startswith('b/') else path
+            files[cur] = []
+        elif line.startswith('@@') and cur is not None:
+            m = re.match(r'@@ -(\d+)(?:,(\d+))? \+(\d+)(?:,(\d+))? @@', line)
+            files[cur].append([int(m.group(1)), []])
+        elif cur is not None and files[cur] and (line[:1] in (' ', '+', '-') or line == '') and not line.startswith('--- '):
+            files[cur][-1][1].append(line if line else ' ')
+    out = {}
+    for rel, hs in files.items():
+        try:
+            src_lines = read(rel).split('\n')
+        except OSError:
+            return None
+        res = []
+        pos = 0
+        for start, body in hs:
+            old = [b[1:] for b in body if b[0] in (' ', '-')]
+            new = [b[1:] for b in body if b[0] in (' ', '+')]
+            # locate the old block at or after pos (exact position first, then search: fix commits may have shifted it)
+            at = None
+            cand = start - 1
+            if src_lines[cand:cand + len(old)] == old and cand >= pos:
+                at = cand
+            else:
+                for i in range(pos, len(src_lines) - len(old) + 1):
+                    if src_lines[i:i + len(old)] == old:
+                        at = i
+                        break
+            if at is None:
+                return None
+            res.extend(src_lines[pos:at])
+            res.extend(new)
+            pos = at + len(old)
+        res.extend(src_lines[pos:])
+        out[rel] = '\n'.join(res)
+    return out
+
+
+class PatchVariant(Variant):
+    """a behaviour-preserving patch (twin) or a seeded change (breaker) kept as a unified diff"""
+
+    def __init__(self, prop, kind, name, diff_path, expect_rule=None, note=''):
+        Variant.__init__(self, prop, kind, name, [], expect_rule, note)
+        self.diff_path = diff_path
+
+    def overlay(self, root=None):
+        root = root or REPO_ROOT
+        with open(self.diff_path, encoding='utf-8') as f:
+            diff = f.read()
+
+        def read(rel):
+            with open(os.path.join(root, rel), encoding='utf-8') as fh:
+                return fh.read()
+        return apply_unified_diff(diff, read)
+
+
 def run_variant(v, tier='quick'):
     """returns (status, detail): status in ok / MISSED / FALSE-ALARM / UNDECIDED / SKIPPED"""
     from run import run_property
